@@ -2,8 +2,8 @@
 # benign_matrix.sh [b<k> ...]: run every behaviour-preserving edit of /verif/benign (default: all) against the checks
 # of the properties listed in its props.txt, in a scratch worktree of /repo (VERIF_REPO) with a scratch copy of the
 # verifier state (VERIF_DIR). A check that does not exit 0 on such an edit is a false alarm. Results: benign/<k>/result.txt.
-export GOFLAGS=-mod=mod GOPROXY=off GOSUMDB=off GOTOOLCHAIN=local GOMAXPROCS=8
-SR=/tmp/benignrepo; SV=/tmp/benignverif
+export GOFLAGS=-mod=mod GOPROXY=off GOSUMDB=off GOTOOLCHAIN=local GOMAXPROCS=${GOMAXPROCS:-8}
+SR=/tmp/benignrepo${MATRIX_ID:-}; SV=/tmp/benignverif${MATRIX_ID:-}
 rm -rf $SV; git -C /repo worktree remove --force $SR 2>/dev/null; rm -rf $SR
 git -C /repo worktree add --detach $SR HEAD >/dev/null 2>&1 || exit 2
 mkdir -p $SV; cp -r /verif/baseline /verif/stubs /verif/known_findings.jsonl /verif/replays $SV/
